@@ -129,7 +129,9 @@ def canon(text):
     text = re.sub(r"^REPLACE\s+INTO\b", "INSERT OR REPLACE INTO", text)
     quals = set()
     kwset = set(k for kw in KEYWORDS for k in kw.split()) | {"ON", "DO", "ORDER", "GROUP", "BY", "CONFLICT", "NOTHING"}
-    for m in list(re.finditer(r"\b(?:FROM|UPDATE|INTO)\s+([A-Za-z_]\w*)((?:\s+AS)?\s+([A-Za-z_]\w*))?", strip_strings(text))):
+    # qualifiers are only dropped when the statement reads one table: with a join, `s.col` / `g.col` tell the tables apart
+    multi = re.search(r"\bJOIN\b", strip_strings(text), flags=re.I) is not None
+    for m in ([] if multi else list(re.finditer(r"\b(?:FROM|UPDATE|INTO)\s+([A-Za-z_]\w*)((?:\s+AS)?\s+([A-Za-z_]\w*))?", strip_strings(text)))):
         if m.group(1).upper() in kwset:
             continue
         quals.add(m.group(1))
@@ -213,6 +215,7 @@ class Stmt:
         self.conflict_any = False
         self.values = []
         self.update_set = []  # columns assigned in DO UPDATE SET / UPDATE SET
+        self.update_where = None   # condition of a conditional upsert (DO UPDATE SET .. WHERE ..)
         self.set_literals = {}  # column -> literal in SET col = 'lit'
         self.select_cols = []
         self.distinct = False
@@ -251,7 +254,14 @@ class Stmt:
                 self.conflict_cols = [c.strip() for c in mc.group(1).split(",")] if mc.group(1) is not None else []
                 self.conflict_any = mc.group(1) is None
                 if mc.group(3):
-                    for a in split_top(mc.group(3)):
+                    body = mc.group(3)
+                    # `DO UPDATE SET .. WHERE cond`: the update is conditional (rows for which cond is false are silently kept)
+                    mw = re.search(r"\bWHERE\b", strip_strings(body), re.I)
+                    self.update_where = None
+                    if mw:
+                        self.update_where = body[mw.end():].strip()
+                        body = body[:mw.start()]
+                    for a in split_top(body):
                         self.update_set.append(a.split("=")[0].strip())
         elif self.kind == "UPDATE":
             m = re.match(r"UPDATE\s+([A-Za-z_]\w*)\s+SET\s+", self.text, re.I)
